@@ -196,6 +196,7 @@ Not decided: that every mentioned name is declared or imported (program dependen
 
     shapes(m, ctx);
     dispatch_agreement(m, ctx, "C18.dispatch", "Typescript", "generate", "t.ty");
+    comment_lines(m, ctx);
     imports(m, ctx);
     values(m, ctx);
     categories(m, ctx, &ts);
@@ -282,6 +283,38 @@ pub fn dispatch_agreement(m: &Model, ctx: &mut Ctx, rule: &str, self_ty: &str, d
         }
     }
     ctx.floor(&format!("{}/routed-kinds", rule), routed, 8);
+}
+
+/// C18.comment: the comments of a definition are written in front of its declaration as `//` comments. A `//` comment ends at
+/// the next ECMAScript line terminator (LF, CR, U+2028, U+2029), and an ASN.1 comment may contain any of them except LF, so
+/// format_comments is evaluated on texts with each of them: every line of what it returns starts a comment of its own —
+/// otherwise the rest of the ASN.1 comment is read as TypeScript.
+fn comment_lines(m: &Model, ctx: &mut Ctx) {
+    use crate::eval::{Env, Evaluator, Val};
+    let Some(f) = m.fns.iter().find(|f| f.name == "format_comments" && f.module.starts_with("generator::typescript")) else {
+        ctx.fail_closed("C18.comment", "anchor not found: typescript format_comments");
+        return;
+    };
+    ctx.func(&f.key);
+    let consts = const_resolver(m);
+    let ev = Evaluator { consts: &consts, call_hook: &crate::eval::no_hook, inline: None };
+    let p = f.sig.inputs.iter().filter_map(|a| match a { syn::FnArg::Typed(t) => Some(tok(&t.pat)), _ => None }).next().unwrap_or("comments".into());
+    for (label, text) in [("LF", " one\n two */ export x"), ("CR", " one\r two */ export x"), ("CRLF", " one\r\n two */ export x"), ("U+2028", " one\u{2028} two */ export x"), ("U+2029", " one\u{2029} two */ export x"), ("none", " one two")] {
+        ctx.oblige("C18.comment", label, true);
+        let mut env = Env::new();
+        env.insert(p.clone(), Val::Str(text.to_string()));
+        match ev.eval_fn_body(&f.block, &mut env) {
+            Ok(Val::Str(out)) => {
+                let bad: Vec<&str> = out.split(['\n', '\r', '\u{2028}', '\u{2029}']).filter(|l| !l.trim().is_empty() && !l.trim_start().starts_with("//")).collect();
+                if !bad.is_empty() || !out.ends_with('\n') {
+                    ctx.violate("C18.comment", &format!("line-outside-comment:{}", label), &f.file, f.line,
+                        &format!("format_comments on a comment containing {} returns {:?}: the line {:?} is not inside a `//` comment — the rest of the ASN.1 comment is read as TypeScript", label, out, bad.first().unwrap_or(&"<no final line break>")));
+                }
+            }
+            Ok(o) => ctx.fail_closed("C18.comment", &format!("[{}]: {}", label, o.show())),
+            Err(e) => ctx.fail_closed("C18.comment", &format!("[{}]: {}", label, e)),
+        }
+    }
 }
 
 /// C18.imports: "every type name it mentions is declared in the namespace or imported". The import loop of
